@@ -377,8 +377,8 @@ def exec_real(op, W):
             rep = 'ok'
         else:
             raise RuntimeError('unknown op ' + k)
-    except (ValueError, TypeError, IndexError, KeyError, AssertionError) as e:
-        cls = next(c for t, c in ERRCLS.items() if isinstance(e, t))
+    except Exception as e:    # noqa: BLE001 - every exception class is an observable outcome here
+        cls = next((c for t, c in ERRCLS.items() if isinstance(e, t)), 'other:' + type(e).__name__)
         W.last_exc = f'{type(e).__name__}: {e}'
         return 'err:' + cls, []
     return rep, created
@@ -1192,6 +1192,9 @@ def check_clauses(op, W, O, OS, pre_arrays, out, created):
             if list(arr.shape[1:]) != list(trail) or arr_info(arr)[0] != cls:
                 raise Violation('dtype-shape', f'{h}.{key}: dtype/trailing shape {arr.dtype}{arr.shape[1:]}, record model '
                                 f'{cls}{trail}')
+            if cls == 's' and w is not None and arr.dtype.itemsize // 4 != w:
+                raise Violation('str-width', f'{h}.{key}: string column of width {arr.dtype.itemsize // 4}, record model '
+                                f'keeps {w} characters (after {k})')
             rows = real_rows(arr)
             want = [r[key] for r in o.recs]
             if rows != want:
@@ -1324,6 +1327,21 @@ def gen_valid_op(rng, W, O, OS, k):
             + ['sext'] * 6 + ['ixget'] * 4 + ['ixset'] * 3
     kind = rng.choice(kinds)
     sh = None
+    if rng.random() < 0.03:
+        # an attempt to store an atom type < 1 through one of the write paths: must be refused (or at least
+        # must not leave a type < 1 behind)
+        c = rng.random()
+        bad = rng.choice([0, -1, 0.5])
+        dt = 'f' if isinstance(bad, float) else 'i'
+        if c < 0.4:
+            return {'op': 'pset', 'o': h, 'key': 'atype', 'ix': gen_valid_index(rng, n, nonempty=True),
+                    'val': lit(dt, [], [bad]), 'hostile': True}
+        if c < 0.7:
+            return {'op': 'patype', 'o': h, 'key': 'atype', 'val': lit(dt, [], [bad]), 't': rng.randint(1, o_natypes(o)),
+                    'hostile': True}
+        data = [1] * n
+        data[rng.randrange(n)] = bad
+        return {'op': 'setv', 'o': h, 'key': 'atype', 'val': lit(dt, [n], data), 'via': 'view', 'hostile': True}
     if kind in ('symget', 'symset', 'massget', 'massset', 'snatypes', 'spget', 'spgeta', 'spset', 'sext', 'ixget',
                 'ixset'):
         cands = [x for x in S if O[OS[x].atoms_h].n > 0 and OS[x].atoms_h in A]
@@ -1518,6 +1536,9 @@ def run_oracle_history(ops_or_gen, rng=None, length=0, ctx=None):
         pre_arrays = W.live_arrays()
         try:
             rep, created = exec_real(op, W)
+            if rep.startswith('err') and op.get('hostile'):
+                check_clauses(op, W, O, OS, pre_arrays, None, [])      # refused: nothing may have changed
+                continue
             if rep.startswith('err'):
                 raise Violation('valid-op-raised:' + op['op'],
                                 f"{op['op']} is a well-formed operation but raised {getattr(W, 'last_exc', rep)}")
